@@ -48,6 +48,8 @@ pub struct Log {
     pub fired_pending: u32,
     pub fired_err: u32,
     pub hit_trunc_eof: bool,
+    /// the early end was reported and the source then grew (non-sticky end of input)
+    pub revived: bool,
     /// (op index, kind index, tag) of the injected hard error, once it fired
     pub err_fired: Option<(u32, u8, u64)>,
     pub budget: u32,
@@ -134,6 +136,7 @@ pub struct SimSource {
     cuts: Vec<u32>,
     cut_i: usize,
     grow: bool,
+    revive: bool,
     faults: Vec<FaultAt>,
     fi: usize,
     queue: VecDeque<Act>,
@@ -163,6 +166,7 @@ impl SimSource {
             cuts: st.cuts.clone(),
             cut_i: 0,
             grow: st.grow,
+            revive: st.revive,
             faults,
             fi: 0,
             queue: VecDeque::new(),
@@ -261,6 +265,11 @@ impl SimSource {
                 log.hit_trunc_eof = true;
             }
             log.trace.push(Tr { op, call, pos: self.pos as u32, act: A_EOF, len: 0 });
+            if self.revive && self.end < self.doc.len() {
+                // the end just reported was not final: later calls find more data
+                self.end = self.doc.len();
+                log.revived = true;
+            }
             return (self.pos, self.pos);
         } else {
             self.advance_avail();
